@@ -37,7 +37,30 @@ def gen_history(rng, maxlen, mix):
         d, e, o = cfloat.encode(rng.uniform(1e-4, 0.2)), cfloat.encode(rng.uniform(1e-6, 0.05)), cfloat.encode(rng.uniform(-0.05, 0.05))
         # the PHC driver's number is added verbatim, whatever it is: also values no sane driver reports
         phc = rng.choice([0, 0, 0, rng.randrange(10 ** 5), rng.choice([-1, -12345, -(10 ** 9), -(10 ** 12), 10 ** 12, 2 ** 40])])
-        if k < mix["sync"]:
+        prev = next((m for m in reversed(out) if m[0] == "r"), None)
+        if prev is not None and rng.random() < 0.25:
+            # the previous report again with exactly one field changed (what an updater remembers about a
+            # report must not decide what it does with the next one)
+            m = list(prev)
+            f = rng.randrange(8)
+            if f == 0:
+                m[1] = d
+            elif f == 1:
+                m[2] = e
+            elif f == 2:
+                m[3] = o
+            elif f == 3:
+                m[4] = rng.choice([0, 1, 2, 3, 3, 4])
+            elif f == 4:
+                m[5] = itv
+            elif f == 5:
+                a = rng.choice([0, 1, NS, T * NS, T * NS + 1, 40 * NS])
+                m[6], m[7], m[8] = 0, a // NS, a % NS      # a reference time in the past (kind 1 = future needs a non-zero distance)
+            elif f == 6:
+                m[9] = phc
+            m[10], m[11] = t // NS, t % NS
+            out.append(tuple(m))
+        elif k < mix["sync"]:
             age = rng.choice([0, 1, rng.randrange(T * NS + 1), T * NS])
             out.append(("r", d, e, o, rng.randrange(3), itv, 0, age // NS, age % NS, phc, t // NS, t % NS))
         elif k < mix["sync"] + mix["unsync"]:
